@@ -67,14 +67,27 @@ def gen_case(seed):
             v = rnd.choice(VERBS)
             arg = gen_path(rnd)
             if v == "RNTO":
-                ops.append(["RNFR", rnd.choice([gen_path(rnd), "f", "d1/f1"])])
+                src = rnd.choice([gen_path(rnd), "f", "d1/f1"])
+                ops.append(["RNFR", src if M.resolve("/", src) != "/" and ".." not in src else "d1/f1"])
+            if v in ("RNFR", "RMD") and (M.resolve("/", arg) == "/" or ".." in arg):
+                arg = "d1/d2/d3"  # mutations aimed at the virtual root itself are not generated (see C18)
             if v in M.TRANSFER:
                 if rnd.random() < 0.4:
                     ops.append([rnd.choice(["PASV", "EPSV"]), ""])
                 ops.append([v, arg, {"connect": rnd.choice(["before", "after"])}])
             else:
                 ops.append([v, arg])
-    return {"seed": seed, "base": base, "home": home, "ops": ops}
+    base2 = "/srv/v"  # disjoint from every first base directory
+    # re-login as the other user in mid-session, then repeat the previous path-taking command
+    out = []
+    cur = "u"
+    for op in ops:
+        out.append(op)
+        if op[0] in VERBS and rnd.random() < 0.12:
+            cur = "v" if cur == "u" else "u"
+            out.append(["USER", cur])
+            out.append(list(op))
+    return {"seed": seed, "base": base, "base2": base2, "home": home, "ops": out}
 
 
 def virt_tree(home):
@@ -87,28 +100,48 @@ def run_case(case):
     net = scenario.random_net(rng, allow_small_pipe=False)
     net["latency"] = [0.0, 0.001]
     base, home = case["base"], case["home"]
-    sc = {"seed": case["seed"], "server": {"block_size": 16, "wait_future_timeout": 5.0, "users": [{"login": "u", "base_path": base, "home_path": home}]}, "net": net, "fs": {"delay": None}}
+    base2 = case.get("base2", "/srv/v")
+    if real_of(base, "/") == "/":
+        base2 = None  # with base "/" there is no room for a second, disjoint base directory
+    ulist = [{"login": "u", "base_path": base, "home_path": home}]
+    if base2:
+        ulist.append({"login": "v", "base_path": base2, "home_path": "/"})
+    sc = {"seed": case["seed"], "server": {"block_size": 16, "wait_future_timeout": 5.0, "users": ulist}, "net": net, "fs": {"delay": None}}
     viol = []
     info = {"calls_checked": 0, "escape_attempts": 0}
     world = scenario.setup_world(sc)
     with world:
         server = scenario.finish_setup(world, sc)
         vt = virt_tree(home)
+        vt2 = {k: (v if v is None else b"V:" + v) for k, v in vt.items()}
         real = {}
         for k, v in vt.items():
             real[real_of(base, k)] = v
+        if base2:
+            for k, v in vt2.items():
+                real[real_of(base2, k)] = v
         outside = {"/outside": None, "/outside/secret": b"TOP-SECRET", "/srv": None, "/srv/other": None, "/srv/other/x": b"other-user", "/srv/uu": None, "/srv/uu/y": b"prefix-sibling", "/etc": None, "/etc/passwd": b"root:x"}
         if real_of(base, "/") != "/":  # with base "/" (or ".") nothing is outside
             for k, v in outside.items():
                 real.setdefault(k, v)
         world.populate({k: v for k, v in real.items() if k != "/"})
-        rbase = real_of(base, "/")
-        sess = M.Session([M.UserSpec("u", None, home=home)], dict(vt))
+        bases = {"u": real_of(base, "/")}
+        trees = {"u": dict(vt)}
+        mus = [M.UserSpec("u", None, home=home)]
+        if base2:
+            bases["v"] = real_of(base2, "/")
+            trees["v"] = dict(vt2)
+            mus.append(M.UserSpec("v", None, home="/"))
+        sess = M.Session(mus, trees["u"])
         peer = RawPeer(world, "s0", reply_timeout=100.0)
-        pbase = pathlib.PurePosixPath(rbase)
         initial_outside = None
+        cur_user = ["u"]
 
-        def split_snapshot():
+        def split_snapshot(who=None):
+            """(tree under `who`'s base as virtual paths, everything else)"""
+            who = who or cur_user[0]
+            rbase = bases[who]
+            pbase = pathlib.PurePosixPath(rbase)
             snap = world.snapshot()
             inside, out = {}, {}
             for k, v in snap.items():
@@ -120,7 +153,6 @@ def run_case(case):
                     inside[rel] = v
                 else:
                     out[k] = v
-            # ancestors of the base directory are "outside" but necessarily present
             return inside, out
 
         seen_calls = [0]
@@ -130,7 +162,16 @@ def run_case(case):
                 arg = st.op[1]
                 if ".." in arg:
                     info["escape_attempts"] += 1
+                # the model's user decides whose base directory and whose tree are in force
+                who = s.user.login if s.auth else cur_user[0]
+                if who != cur_user[0]:
+                    cur_user[0] = who
+                    initial_outside[0] = split_snapshot()[1]
+                s.tree = trees[who]
                 return
+            rbase = bases[cur_user[0]]
+            pbase = pathlib.PurePosixPath(rbase)
+            base = {"u": case["base"], "v": base2}[cur_user[0]]
             # (1) every path handed to the backend since the last step
             calls = world.fsctl.calls[seen_calls[0] :]
             seen_calls[0] = len(world.fsctl.calls)
@@ -155,6 +196,8 @@ def run_case(case):
                 viol.append({"clause": "wrong-location-addressed", "subject": st.op[0].upper(), "detail": f"{st.op[:2]} -> {st.final} (model cwd {s.cwd}): under base_path only-in-model {only_m[:3]}, only-in-backend {only_s[:3]}"})
                 s.tree.clear()
                 s.tree.update(inside)
+            if st.op[0].upper() == "USER":
+                info["user_switches"] = info.get("user_switches", 0) + 1
 
         async def main():
             await server.start("127.0.0.1", 2121)
@@ -191,12 +234,7 @@ def run_case(case):
                 cwd = M.resolve("/", gen_path(rnd).replace("..", "x"))
                 arg = gen_path(rnd)
 
-                class FakeConn:
-                    pass
-
-                fc = FakeConn()
-                fc.current_directory = pathlib.PurePosixPath(cwd)
-                fc.user = user
+                fc = aioftp.Connection(current_directory=pathlib.PurePosixPath(cwd), user=user)
                 realp, virtp = aioftp.Server.get_paths(fc, arg)
                 pure += 1
                 if not realp.is_relative_to(user.base_path) or ".." in realp.parts:
@@ -219,7 +257,7 @@ def run_case(case):
             "events": world.net.seq,
             "steps": world.loop.steps,
             "outcome": world.outcome,
-            "counters": {"commands_checked": n, "backend_paths_checked": info["calls_checked"], "arguments_containing_dotdot": info["escape_attempts"], "pure_subcheck.get_paths_calls": pure},
+            "counters": {"commands_checked": n, "backend_paths_checked": info["calls_checked"], "arguments_containing_dotdot": info["escape_attempts"], "pure_subcheck.get_paths_calls": pure, "probe.relogin_as_other_user_and_repeat_path": info.get("user_switches", 0)},
             "groups": {"base_path": {base: 1}},
             "violations": out,
         }
